@@ -1,6 +1,39 @@
-//! development probes (not part of any check)
+//! self-test of std models that the current library does not use (a refactor might): each function is decided by the
+//! solver and differentially validated against the native build (check id SELFTEST, not a property of the library)
 use super::common::*;
-pub fn probe_l(y: i32, m: u32) -> i64 { let l: i64 = if m > 2 && spec_is_leap(y) { 1 } else { 0 }; l }
-pub fn probe_leap(y: i32) -> bool { spec_is_leap(y) }
-pub fn probe_cum(m: u32) -> i64 { let cum: i64 = match m { 1 => 0, 2 => 31, 3 => 59, 4 => 90, _ => 334 }; cum }
-pub fn probe_leaps(y: i32) -> i64 { let p = astro(y) - 1; floor_div(p, 4) - floor_div(p, 100) + floor_div(p, 400) }
+pub fn probe_std_ints_holds(a: i32, b: i32, c: u32) {
+    assert!(a.abs_diff(b) as i64 == (a as i64 - b as i64).abs());
+    assert!(a.checked_neg().is_none() == (a == i32::MIN));
+    assert!(a.checked_abs().map_or(true, |v| v >= 0));
+    assert!(a.checked_div(7).unwrap() == a / 7 && a.checked_rem(7) == Some(a % 7));
+    let (s, o) = a.overflowing_add(b);
+    assert!(o == (a as i64 + b as i64 != s as i64));
+    assert!(a.saturating_mul(3) as i64 == (a as i64 * 3).clamp(i32::MIN as i64, i32::MAX as i64));
+    assert!(a.clamp(-5, 5) >= -5 && a.clamp(-5, 5) <= 5);
+    assert!(c.min(10) <= 10 && c.max(10) >= 10);
+}
+pub fn probe_std_options_holds(a: i32, b: i32) {
+    let o = if a > 0 { Some(a) } else { None };
+    assert!(o.map_or(0, |v| v) == if a > 0 { a } else { 0 });
+    assert!(o.map_or_else(|| -1, |v| v) == if a > 0 { a } else { -1 });
+    assert!(o.or(Some(b)).unwrap() == if a > 0 { a } else { b });
+    assert!(o.and(Some(b)).is_some() == (a > 0));
+    assert!(o.filter(|v| *v > 10).is_some() == (a > 10));
+    assert!(o.is_some_and(|v| v > 3) == (a > 3));
+    assert!(o.unwrap_or_default() == if a > 0 { a } else { 0 });
+    assert!((a > b).then_some(a).is_some() == (a > b));
+    assert!((a > b).then(|| b).unwrap_or(a) == if a > b { b } else { a });
+    let r: Result<i32, i32> = if a > 0 { Ok(a) } else { Err(b) };
+    assert!(r.err().is_some() == (a <= 0));
+    assert!(r.map_or(7, |v| v + 0) == if a > 0 { a } else { 7 });
+}
+pub fn probe_std_order_holds(a: i32, b: i32, c: u32, d: u32) {
+    let o = a.cmp(&b);
+    assert!(o.is_lt() == (a < b) && o.is_ge() == (a >= b) && o.is_eq() == (a == b));
+    assert!(o.reverse() == b.cmp(&a));
+    assert!(o.then(c.cmp(&d)).is_lt() == (a < b || (a == b && c < d)));
+    assert!(((a, c) < (b, d)) == (a < b || (a == b && c < d)));
+    assert!(((a, c) >= (b, d)) == !(a < b || (a == b && c < d)));
+    assert!((0..24).contains(&a) == (a >= 0 && a < 24) && (1..=12).contains(&c) == (c >= 1 && c <= 12));
+    assert!((0..5u8).all(|x| (x as i32) < a) == (a > 4) && (0..5u8).any(|x| x as i32 == a) == (a >= 0 && a < 5));
+}
